@@ -241,6 +241,14 @@ fn permute(idx: &mut Vec<usize>, k: usize, f: &mut dyn FnMut(&Vec<usize>)) {
     }
 }
 
+/// A panic in the code under test is data, not a harness failure.
+fn guard<T>(f: impl FnOnce() -> Result<T, Value>) -> Result<T, Value> {
+    match std::panic::catch_unwind(std::panic::AssertUnwindSafe(f)) {
+        Ok(r) => r,
+        Err(_) => Err(json!({"type": "panic", "message": "the code under test panicked"})),
+    }
+}
+
 fn strictly_sorted(v: &[String]) -> bool {
     v.windows(2).all(|w| w[0].as_bytes() < w[1].as_bytes())
 }
@@ -317,7 +325,7 @@ fn drive_variant(
 
     if want.analyze {
         sink.evals += 1;
-        let main = verif::analyze(&cfg_json, fixture, Some(&conc_files), true, true, false);
+        let main = guard(|| verif::analyze(&cfg_json, fixture, Some(&conc_files), true, true, false));
         let out = match main {
             Err(e) => json!({"ok": false, "err": err_kind(&e), "msg": e}),
             Ok(o) => {
@@ -361,7 +369,7 @@ fn drive_variant(
                 variants.push(big);
                 for v in variants {
                     sink.evals += 1;
-                    match verif::analyze(&cfg_json, fixture, Some(&v), false, false, false) {
+                    match guard(|| verif::analyze(&cfg_json, fixture, Some(&v), false, false, false)) {
                         Ok(o2) => {
                             pres.insert(abs_sorted_set(s, &str_list(&o2["targets"])).to_string());
                         }
@@ -373,7 +381,7 @@ fn drive_variant(
                 let mut singles = vec![];
                 for (ap, cp) in files.iter().zip(conc_files.iter()) {
                     sink.evals += 1;
-                    match verif::analyze(&cfg_json, fixture, Some(&[cp.clone()]), false, false, false) {
+                    match guard(|| verif::analyze(&cfg_json, fixture, Some(&[cp.clone()]), false, false, false)) {
                         Ok(o2) => {
                             let tl = str_list(&o2["targets"]);
                             singles.push(json!({"path": ap, "targets": tl.iter().map(|x| s.abs(x)).collect::<Vec<_>>(), "strictly_sorted": strictly_sorted(&tl)}));
@@ -402,7 +410,7 @@ fn drive_variant(
 
     if want.edges {
         sink.evals += 1;
-        let out = match verif::index_edges(&cfg_json, fixture) {
+        let out = match guard(|| verif::index_edges(&cfg_json, fixture)) {
             Err(e) => json!({"ok": false, "err": err_kind(&e), "msg": e}),
             Ok(o) => {
                 let nodes = str_list(&o["nodes"]);
@@ -468,13 +476,13 @@ fn drive_variant(
             let mut roots: Vec<APath> = sub.iter().map(|&i| order[i].path.clone()).collect();
             roots.sort();
             roots.dedup();
-            let out = groups_out(verif::index_groups(&cfg_json, fixture, &vis));
+            let out = groups_out(guard(|| verif::index_groups(&cfg_json, fixture, &vis)));
             let rec = json!({"ev": "groups", "config": canon, "roots": roots, "pruned": false, "changed": [], "out": out, "via": "index"});
             *sink.groups.entry(rec.to_string()).or_insert(0) += 1;
         }
         // analyze without checkpoint: all targets
         sink.evals += 1;
-        let out = match verif::analyze(&cfg_json, fixture, None, false, false, true) {
+        let out = match guard(|| verif::analyze(&cfg_json, fixture, None, false, false, true)) {
             Ok(o) => groups_out(Ok(o["target_groups"].clone())),
             Err(e) => groups_out(Err(e)),
         };
@@ -495,7 +503,7 @@ fn drive_variant(
         }
         for cs in change_sets {
             sink.evals += 1;
-            let (out, changed) = match verif::analyze(&cfg_json, fixture, Some(&cs), false, false, true) {
+            let (out, changed) = match guard(|| verif::analyze(&cfg_json, fixture, Some(&cs), false, false, true)) {
                 Ok(o) => {
                     let ch = abs_sorted_set(s, &str_list(&o["targets"]));
                     (groups_out(Ok(o["target_groups"].clone())), ch)
@@ -653,7 +661,7 @@ fn cmd_dagcases(args: &[String]) {
                 })
                 .collect();
             evals += 1;
-            let o = match verif::dag_groups(a.len(), &a, &ro) {
+            let o = match guard(|| verif::dag_groups(a.len(), &a, &ro)) {
                 Ok(g) => {
                     let gs: Vec<Vec<usize>> = g
                         .into_iter()
@@ -718,7 +726,7 @@ fn cmd_dagrandom(args: &[String]) {
         let mut roots: Vec<usize> = (0..nn).collect();
         roots.shuffle(&mut rng);
         roots.truncate(nroots);
-        let o = match verif::dag_groups(nn, &adj, &roots) {
+        let o = match guard(|| verif::dag_groups(nn, &adj, &roots)) {
             Ok(g) => json!({"ok": true, "err": "", "groups": g}),
             Err(e) => json!({"ok": false, "err": err_kind(&e), "groups": []}),
         };
@@ -1046,6 +1054,57 @@ fn cmd_unzst(args: &[String]) {
     std::io::copy(&mut dec, &mut out).unwrap();
 }
 
+// large acyclic graphs (hundreds of nodes, high fan-in) with a topological rank as acyclicity certificate, so that
+// the judge can verify acyclicity in O(edges) instead of computing reachability
+fn cmd_dagbig(args: &[String]) {
+    let out = PathBuf::from(arg(args, "--out").expect("--out"));
+    let seed: u64 = arg(args, "--seed").map(|s| s.parse().unwrap()).unwrap_or(1);
+    let count: usize = arg(args, "--count").map(|s| s.parse().unwrap()).unwrap_or(6);
+    let mut rng = StdRng::seed_from_u64(seed);
+    let mut f = std::io::BufWriter::new(std::fs::File::create(&out).unwrap());
+    let sizes = [256usize, 300, 700, 1500];
+    for k in 0..count {
+        let nn = sizes[k % sizes.len()];
+        let mut perm: Vec<usize> = (0..nn).collect();
+        perm.shuffle(&mut rng);
+        let mut rank = vec![0usize; nn];
+        for (r, &n) in perm.iter().enumerate() {
+            rank[n] = r;
+        }
+        let hubs = rng.gen_range(1..=4);
+        let mut adj: Vec<Vec<usize>> = vec![vec![]; nn];
+        for j in hubs..nn {
+            // most nodes depend on a few low-rank hubs (high fan-in), plus a couple of random earlier nodes
+            let t = perm[j];
+            for h in 0..hubs {
+                if rng.gen_bool(0.8) {
+                    adj[t].push(perm[h]);
+                }
+            }
+            for _ in 0..rng.gen_range(0..3) {
+                adj[t].push(perm[rng.gen_range(0..j)]);
+            }
+            adj[t].sort();
+            adj[t].dedup();
+            adj[t].shuffle(&mut rng);
+        }
+        let roots: Vec<usize> = (0..nn).collect();
+        let mut outs: BTreeSet<String> = BTreeSet::new();
+        for _rep in 0..3 {
+            let o = match guard(|| verif::dag_groups(nn, &adj, &roots)) {
+                Ok(g) => json!({"ok": true, "err": "", "groups": g}),
+                Err(e) => json!({"ok": false, "err": err_kind(&e), "groups": []}),
+            };
+            outs.insert(o.to_string());
+        }
+        for o in outs {
+            let ov: Value = serde_json::from_str(&o).unwrap();
+            writeln!(f, "{}", json!({"ev": "dag_big", "adj": adj, "rank": rank, "out": ov})).unwrap();
+        }
+    }
+    println!("{}", json!({"evaluations": count * 3, "records": count}));
+}
+
 fn main() {
     let args: Vec<String> = std::env::args().collect();
     match args.get(1).map(|s| s.as_str()) {
@@ -1055,6 +1114,7 @@ fn main() {
         Some("cfgrandom") => cmd_cfgrandom(&args),
         Some("dagcases") => cmd_dagcases(&args),
         Some("dagrandom") => cmd_dagrandom(&args),
+        Some("dagbig") => cmd_dagbig(&args),
         _ => {
             eprintln!("usage: vinproc cfgcases|cfgrandom|dagcases|dagrandom ...");
             std::process::exit(2);
